@@ -8,7 +8,8 @@ THEOREMS = [
     "Lou.C17.hyph_states_are_prefixes", "Lou.C17.hyph_fallback_correct", "Lou.C17.hyph_walk_bound",
     "Lou.C17.hyphenate_format", "Lou.C17.hyphenate_writes", "Lou.C17.hyphenate_writes_braille",
     "Lou.C17.hyphenate_braille_format_partial",
-    "Lou.C17.f5_negative_offset", "Lou.C17.digit_only_line_ignored", "Lou.C17.braille_nul_overwritten",
+    "Lou.C17.leading_digit_dot_in_range", "Lou.C17.hyphenateWord_no_negative_index",
+    "Lou.C17.digit_only_line_ignored", "Lou.C17.braille_nul_overwritten",
     "Lou.Hyph.compileDict_ok", "Lou.Hyph.walk_refines", "Lou.Hyph.seek_spec", "Lou.Hyph.lssD_concat",
 ]
 
@@ -16,9 +17,10 @@ CLAIM = dict(
     text=("Kernel-checked theorems (LouProofs/C17.lean) for ALL pattern lists and ALL words: the automaton "
           "compileHyphenation builds (states = pattern prefixes, fallback = longest proper suffix that is a state) "
           "walked by hyphenateWord (fallback loop, limit clamp) computes exactly the property's longest-suffix matching "
-          "rule (hyph_refines_spec), and lou_hyphenate in text mode leaves exactly the property's string for every text shorter than 100 (hyphenate_text_spec), under the hypotheses the proof forces — no digit before a leading '.', no "
-          "digit-only line, state numbers fit their fields — the first two shown necessary (witness in the model, reproduced on the "
-          "implementation by this check); format and write-range theorems for the lou_hyphenate wrapper. Tied to the "
+          "rule (hyph_refines_spec), and lou_hyphenate in text mode leaves exactly the property's string for every text shorter than 100 (hyphenate_text_spec), under the hypotheses the proof forces — no digit-only line (shown necessary: witness "
+          "in the model, reproduced on the implementation by this check) and state numbers that fit their 32-bit fields; a "
+          "digit before a leading '.' is covered (it has no position in the word: skipped by the code since liblouis "
+          "0c404269, absent from the spec); no negative index for any pattern string; format and write-range theorems for the lou_hyphenate wrapper. Tied to the "
           "code by differential testing: canonical automaton dumps (HYPDUMP) and per-word results with loop tick counts "
           "compared between the ASan/UBSan build and the compiled Lean model on generated dictionaries and the shipped "
           "ones; the property text, transcribed independently in Python and executed from the Lean spec, is the oracle "
@@ -226,7 +228,7 @@ def run(tier):
     # ------------------------------------------------------------ (i) generated dictionaries
     nd = 48 if quick else 1200
     nw = 24 if quick else 40
-    kinds = (["normal"] * 6 + ["leaddigit", "digitonly", "badutf8", "escape", "notdict", "normal"])
+    kinds = (["normal"] * 5 + ["leaddigit", "digitonly", "badutf8", "escape", "notdict", "leaddigit", "normal"])
     gens = []
     for i in range(nd):
         kind = kinds[i % len(kinds)]
@@ -235,6 +237,16 @@ def run(tier):
         g["pats"] = H.parse_dict(g["bytes"])
         pats = g["pats"] or []
         words = [gen_word(rng, g, pats) for _ in range(nw)]
+        # words on which a '.'-anchored pattern matches as a whole (exercises the alignment at both ends)
+        anchored = [l for l, _d in pats if l and (l[0] == H.DOT or l[-1] == H.DOT)]
+        for l in (rng.sample(anchored, min(6, len(anchored))) if anchored else []):
+            core = [c for c in l if c != H.DOT]
+            if not core:
+                continue
+            pre = [] if l[0] == H.DOT else [rng.choice(g["lowers"]) for _ in range(rng.randint(0, 2))]
+            post = [] if l[-1] == H.DOT else [rng.choice(g["lowers"]) for _ in range(rng.randint(0, 2))]
+            lead = rng.choice([[], [], [45], [rng.choice(g["lowers"]), 45], [32]])
+            words.append(lead + pre + core + post)
         words.append([rng.choice(g["lowers"]) for _ in range(rng.choice([99, 100, 101, 150]))])
         words.append([])
         g["words"] = words
@@ -330,9 +342,11 @@ def run(tier):
             # -- implementation fault
             if line is None:
                 fr = (fault or {})
-                if mline.startswith("H FAULT negOffset") and "hyphenateWord" in fr.get("frame", ""):
+                neg_w = pats is not None and len(w) < 100 and any(
+                    sp.run_digits([low(c) for c in run])[1] for run in runs_of(w, isl))
+                if neg_w and "hyphenateWord" in fr.get("frame", "") and str(fr.get("kind", "")).startswith("asan"):
                     v.violation(SIG_F5, "pattern with a digit before a leading '.': hyphenateWord accesses hyphens[-1] "
-                                        "(%s, %s); the model predicts the negative offset" % (fr.get("kind"), fr.get("detail")), rep)
+                                        "(%s, %s) — fixed in liblouis 0c404269, back again" % (fr.get("kind"), fr.get("detail")), rep)
                 elif fr.get("kind") in ("tick-budget", "timeout"):
                     v.violation("C17:fallback-loop-does-not-terminate",
                                 "hyphenateWord exceeded %s (hyph_walk_bound: at most 2(n+2) iterations)" % fr.get("kind"), rep)
@@ -347,11 +361,7 @@ def run(tier):
                 continue
             v.cov["evaluations"] += 1
             # -- correspondence (result and tick count)
-            if M and M[0] == "FAULT":
-                # the model says hyphens[-1] is touched; the implementation survived (the byte in front of the
-                # array happened to be addressable): still the same finding, judged by the oracle below
-                pass
-            elif R != M:
+            if R != M:
                 corr_bad.append(("HYP", g["id"], line[:200], mline[:200], rep))
             elif R and R[2] is not None:
                 dist["ticks_compared"] += 1
@@ -383,14 +393,11 @@ def run(tier):
                                     "by the property it contributes at every point, the implementation ignores it: "
                                     "expected %s got %s" % (bytes(exp or []).hex(), bytes(R[1] or []).hex()), rep)
                     elif negs:
-                        v.violation(SIG_F5, "pattern with a digit before a leading '.': result differs from the property "
-                                    "(and hyphens[-1] is accessed)", rep)
+                        v.violation(SIG_F5, "pattern with a digit before a leading '.' matching at the start of a run: result "
+                                    "differs from the property (that digit has no position; the others must land where they are aligned)", rep)
                     else:
                         v.violation("C17:spec-mismatch", "lou_hyphenate differs from the pattern-matching semantics: "
                                     "expected %s got %s" % (bytes(exp or []).hex(), bytes(R[1] or []).hex()), rep)
-                elif negs and M and M[0] == "FAULT":
-                    v.violation(SIG_F5, "pattern with a digit before a leading '.': hyphens[-1] is accessed "
-                                        "(model: negative offset); the process survived", rep)
                 if len(v.cov["samples"]) < 4 and exp and 49 in exp:
                     v.sample({"dictionary": g["bytes"].decode("latin-1")[:120], "word": "".join(chr(c) for c in w),
                               "result": line.split(" |")[0]})
@@ -542,8 +549,10 @@ def run(tier):
                      "shipped dictionaries under a generated letter table x real (tests/*.yaml), pattern-derived and random words; "
                      "non-trivial = a result with at least one break point; distinct by (dictionary, word)")
     v.assumptions += [
-        "WFPats (no digit before a leading '.', no digit-only line) and FitsStates (<= 65535 states) are hypotheses of "
-        "hyph_refines_spec; each is shown necessary in the model and searched for on the implementation (signatures %s, %s, %s)" % (SIG_F5, SIG_DIGIT, SIG_STATES),
+        "WFPats (no digit-only line) and FitsStates (state numbers fit 32 bits) are hypotheses of hyph_refines_spec; the "
+        "first is shown necessary in the model and reproduced on the implementation (signature %s); the former findings "
+        "%s (digit before a leading '.') and %s (16-bit state numbers) are fixed in liblouis and stay in the search as "
+        "ordinary violations" % (SIG_DIGIT, SIG_F5, SIG_STATES),
         "character classes (letter, lower-case, hyphen) are an oracle of the model; for generated tables they are known by "
         "construction and cross-checked with HYPCLS, for shipped tables they are read with HYPCLS",
         "braille mode: the back-translation result (text, inputPos) is taken from the implementation (BWD)"]
